@@ -18,7 +18,7 @@ META = dict(
         "pygradflow/penalty.py:LagrangianPenaltyFilter.iterate_entry",
     ],
     bounds=dict(
-        quick="bounded: every sequence of N<=4 insertions from the empty filter; inductive: one update from an arbitrary antichain of k<=3 entries; Lagrangian entries: N<=2, n=m=1 (NRA)",
+        quick="bounded: every sequence of N<=4 insertions from the empty filter; inductive: one update from an arbitrary antichain of k<=3 entries; Lagrangian entries: N<=2, n=m=1 (NRA); Precision.Single: N<=3 and k=2 (float32 stores as uninterpreted rounding)",
         thorough="bounded: N<=5; inductive: k<=4; Lagrangian entries: N<=2, n=m=1",
     ),
     outside=["NaN/inf coordinates", "longer insertion sequences are covered by the inductive step only up to filters of k entries"],
@@ -36,6 +36,9 @@ def tasks(tier):
     for k in range(0, K + 1):
         t.append(dict(fn="h_step", shape=dict(k=k, cls="ObjectivePenaltyFilter")))
     t.append(dict(fn="h_seq", shape=dict(N=2, cls="LagrangianPenaltyFilter"), opts=dict(nra=True, norm_model="exact")))
+    # single working precision: the filter compares the values the iterate reports (float32 stores modelled by R32)
+    t.append(dict(fn="h_seq", shape=dict(N=3, cls="ObjectivePenaltyFilter", single=True), opts=dict(fp32_round=True)))
+    t.append(dict(fn="h_step", shape=dict(k=2, cls="ObjectivePenaltyFilter", single=True), opts=dict(fp32_round=True)))
     return t
 
 
@@ -44,9 +47,10 @@ def dom(p, q):
     return land(p[0] <= q[0], p[1] <= q[1])
 
 
-def _mk(E, cls, rho):
+def _mk(E, cls, rho, single=False):
     pen = boot.mod("penalty")
-    params = boot.mod("params").Params(rho=rho)
+    P = boot.mod("params")
+    params = P.Params(rho=rho, precision=P.Precision.Single) if single else P.Params(rho=rho)
     problem = types.SimpleNamespace(num_cons=1, num_vars=1, var_bounded=False)
     return getattr(pen, cls)(problem, params)
 
@@ -115,7 +119,7 @@ def h_seq(E, shape):
     """every sequence of N insertions starting from the empty filter"""
     cls = shape["cls"]
     rho0 = E.real("rho0", lo=0, lo_strict=True)
-    f = _mk(E, cls, rho0)
+    f = _mk(E, cls, rho0, shape.get("single", False))
     E.prove(len(f.entries) == 0, "C18.starts_empty")
     for k in range(shape["N"]):
         before = list(f.entries)
@@ -129,7 +133,7 @@ def h_step(E, shape):
     cls = shape["cls"]
     k = shape["k"]
     rho0 = E.real("rho0", lo=0, lo_strict=True)
-    f = _mk(E, cls, rho0)
+    f = _mk(E, cls, rho0, shape.get("single", False))
     ents = [(E.real(f"p{i}_0"), E.real(f"p{i}_1")) for i in range(k)]
     for i, p in enumerate(ents):
         for l, q in enumerate(ents):
